@@ -25,6 +25,15 @@ loadstate_t iobuffer::load_buffer(FILE *fin, bool ispadding)
   WENCRY_VERIF_SCOPE(WV_IO_LOAD, this);
   u32_t load = fread(b, 1, sum, fin);
   bool readover = feof(fin);
+  if ((!ispadding) && (!readover) && load == sum)
+  {
+    // a full chunk may end exactly at end of file: look one byte ahead
+    int next = fgetc(fin);
+    if (next == EOF)
+      readover = true;
+    else
+      ungetc(next, fin);
+  }
   tail = load & 0xf;
   total = load >> 4;
   now = 0;
